@@ -11,6 +11,7 @@ declare -A CHECKS=(
   [b6_init_table_loop]="C11 C07"
   [b7_unsupported_branch_restructured]="C13 C04"
   [b8_iv_in_own_buffer]="C06 C17 C10"
+  [b9_delete_marshal_presized]="C05 C03 C12"
 )
 bad=0
 for f in ${BENIGN:-selftest/benign/*.diff}; do
